@@ -15,18 +15,30 @@ def call_of(rec):
     return {'op': rec['op'], 'ty': rec['ty'], 'ns': rec['ns'], 'pet': rec['pet'], 'wae': rec['wae']}
 
 
-def exhaustive_histories(run, family, length, depth=3):
+def exhaustive_histories(run, family, length, depth=3, cap=None, seed=0):
     r = run.tlc(f'hist-{family}{length}', 'RegHist', cfg(family, length, depth), dump=True, timeout=3000)
     if r.violated:
         run.violation({'kind': 'model', 'invariant': r.violated, 'family': family, 'trace': [F.thaw(s) for _, s in tla.error_trace(r.out)][-2:]},
                       f'TLC: {r.violated} fails on the Registry specification itself')
     hs = []
+    rng = random.Random(seed)
+    seen = 0
     if r.dump and os.path.exists(r.dump):
         for st in tla.read_dump(r.dump):
             h = st['hist']
-            if len(h) == length:
+            if len(h) != length:
+                continue
+            seen += 1
+            if cap is None or len(hs) < cap:
                 hs.append([call_of(F.thaw(x)) for x in h])
+            else:                                   # reservoir sampling: every maximal history equally likely
+                j = rng.randrange(seen)
+                if j < cap:
+                    hs[j] = [call_of(F.thaw(x)) for x in h]
         os.remove(r.dump)
+    if cap is not None and seen > cap:
+        run.extra[f'histories_{family}_generated'] = seen
+        run.extra[f'histories_{family}_replayed'] = cap
     shutil.rmtree(os.path.join(r.wd, 'meta'), ignore_errors=True)
     return hs
 
